@@ -22,13 +22,13 @@ LEVEL = "exploration"
 RULE = (
     "A case is (record sequence of length 0..60 (a few up to 300): message = arbitrary Unicode text incl. control characters, "
     "newlines, NUL, %-signs, very long lines; one of the 7 gallia levels; tags absent or a list; optional exception info), file "
-    "level DEBUG or TRACE, container in {.zst as produced, .gz, plain with <prio> prefix, plain without prefix, stdin}, reader mode "
+    "level DEBUG or TRACE, container in {.zst as produced, .gz, .gz of two members, plain with <prio> prefix, plain without prefix, stdin}, reader mode "
     "in {forward, reverse, offset k, tail n, head n} x priority threshold 0..8, through PenlogReader.records() and through the hr "
     "command (captured stdout). The records are written with add_zst_log_handler / remove_zst_log_handler on a private logger; "
     "ground truth W is what a second handler on the same logger saw at or above the file level. Oracle: forward = W (text, "
     "priority = from_level(level), tags, timestamp to the microsecond); threshold p = [r in W | prio <= p]; offset k = W[k:]; "
     "reverse = W[::-1]; tail n = last n (n >= len gives all); head n = first n of the filtered sequence; len(reader) = |W|; "
-    "identical for all containers; hr prints str(record) of exactly those. Burst cases log 1 000 - 100 000 short records back to back.  Non-trivial: >= 2 records and a non-forward mode or a "
+    "identical for all containers; hr prints str(record) of exactly those. Burst cases log 1 000 - 100 000 short records back to back. Two-logs cases run an open/log/close program over two log files that are open at the same time, in a child process, and read both back.  Non-trivial: >= 2 records and a non-forward mode or a "
     "threshold that removes something. Distinct by (records, mode, container)."
 )
 ASSUMPTIONS = [
